@@ -47,7 +47,12 @@ wait
 cat $work/m.* > $work/matrix.txt
 python3 - "$work/matrix.txt" <<'PY'
 import sys,json,collections
+import os
 m=collections.defaultdict(dict)
+if os.path.exists('/verif/seeded/matrix.json'):  # rows of seeds not run this time are kept
+    m.update(json.load(open('/verif/seeded/matrix.json')))
+ran=set(l.split()[0] for l in open(sys.argv[1]) if l.split())
+for s_ in ran: m[s_]={}
 for l in open(sys.argv[1]):
     p=l.split()
     if len(p)>=3 and p[2].startswith('exit='):
